@@ -124,6 +124,25 @@ CLAIMED["C14"] = dict(
    technique="Coq proof (state machine + real algebra) + AST translator + lock-step correspondence",
    design="DESIGN.md section 4, C14")
 
+CLAIMED["C09"] = dict(
+   text="Coq theorems (real arithmetic, Coquelicot) about the bin formulas REGENERATED from the four spline sources on "
+        "every run: for the rational-quadratic bin - for every left knot, width, height and positive end derivatives - "
+        "the output formula is differentiable with the stated positive derivative, strictly increasing on the bin "
+        "(mean-value theorem), maps the bin's ends to the output bin's ends (continuity across knots, pinned box end "
+        "points), stays in the output bin, is C1 at knots and is onto (explicit pre-image); the same for the linear "
+        "and quadratic bins; with linear tails all four families are the identity with zero log-det outside the bound "
+        "and the spline interval is closed; the domain guards reject exactly the complement of the direction's "
+        "closed interval. PARTIAL: the assembly of bins into the whole spline via softmax/cumsum knots and the bin "
+        "search, and monotonicity of the cubic bin, are not proved; they are covered by the bit-level correspondence "
+        "of the extracted whole-spline models of all four families with the implementation (both directions, boxes, "
+        "tails, 5 parameter kinds, inputs on knots and their float neighbours) and by the monotonicity / end-point / "
+        "continuity / range / tails search on the implementation.",
+   note="Trusted: Coq kernel; Reals/Coquelicot axioms (classic, functional extensionality, the two Dedekind-reals "
+        "axioms); translator (Gen/Spline*.v); extraction + float dictionary; harness. Floating-point rounding is "
+        "outside the theorems. Known finding: cubic inverse NaN at the upper end point for one-hot parameters.",
+   technique="Coq proof (Coquelicot derivatives, MVT, algebra) + AST translator + extracted-model correspondence",
+   design="DESIGN.md section 4, C09")
+
 def main():
     checks = []
     for pid in ALL:
